@@ -553,7 +553,14 @@ func validateSamples(nb *nativeBuild, results []instResult) (ok, bad int, notes 
 				return
 			}
 			a, b := append([]string{}, r.events...), append([]string{}, j.p.Trace...)
-			if j.p.Threads > 1 || j.p.MapForks > 0 {
+			if j.p.MapForks > 0 {
+				// the path fixed a map iteration order that the native run is free not to take (with
+				// tied saliences another rule may legitimately go first): the native run passing all
+				// harness assertions is what is compared
+				out[k] = res{true, ""}
+				return
+			}
+			if j.p.Threads > 1 {
 				sort.Strings(a)
 				sort.Strings(b)
 			}
